@@ -21,7 +21,7 @@ import pynetdicom.apps.qrscp.handlers as qh
 silence_loggers()
 
 N = tier(4, 6)
-NS = int(__import__('os').environ.get('C30_NS', tier(4, 6)))   # uid length for storescp_paths
+NS = int(__import__('os').environ.get('C30_NS', tier(4, 8)))   # uid length for storescp_paths (8 = shortest escape shape behind the 'UN.' prefix)
 NV = tier(2, 3)   # uid length in the branch-combination harness
 NA, NB = tier(1, 2), tier(2, 2)   # symbolic parts around a traversal skeleton
 CWD = "/cwd"
@@ -284,7 +284,7 @@ _STORESCP_STUBS = [
 
 @harness(
     "C30",
-    timeout=(150, 900),
+    timeout=(150, 1500),
     functions=["apps.common:handle_store"],
     bounds="SOP Instance UID any str of length <= %d (any code points); SOP Class UID unknown to SOP_CLASS_PREFIXES; "
            "output directory in {/store, store, /srv/dcm/, a/b, ., None}; deflated transfer syntax (open) or not "
